@@ -397,7 +397,8 @@ func runCase(c *Case) []string {
 			r.TieFail("model-preimage-"+k.Kind, fmt.Sprintf("model preimage differs from the reference preimage (call %d: %s input %d hash type 0x%x)", n, k.Kind, k.Idx, k.Ht), one)
 		}
 		// (5) the signature check around the taproot digest: real CheckSchnorrSignature = the model's schnorrPlan
-		if k.Kind == "tap" && k.Idx >= 0 {
+		// (thorough sweeps all 256 hash types per transaction: there every third request is followed by the check)
+		if k.Kind == "tap" && k.Idx >= 0 && (!r.Thorough() || c.Label == "corpus" || n%3 == 0) {
 			if !schnorrTie(c, shared, n, k, mk, mdig, got, &signed, one) {
 				return nil
 			}
